@@ -763,3 +763,35 @@ Proof. exact squashed_annotation_example. Qed.
 Print Assumptions C14_annotation_reaches_squashed_returned.
 Print Assumptions C14_parsed_text_annotation_reaches_squashed_returned.
 Print Assumptions C14_squashed_annotation_nonvacuous.
+
+(** ------------------------------------------------------------------------------------------
+    SECOND DEFECT CLASS (coarse_fragment_multiplier): an annotated coarse node WITH A MULTIPLIER inside a fragment definition
+    gives its annotation to the first of its n copies only, while the same token in the base graph annotates all n.
+    Refuted on the graph-level model of read_fragment_cgsmiles (Write/FragRead over Frag/StripImpl and Reader/ReaderImpl,
+    imports only; bounded: one witness, vm_compute); the executable clause of the check (DialectCheck.mult_fail) classifies
+    that observation as the class.  The partial theorems above do not reach into the class: C14_partial_coarse_fragment is
+    per node text, C14_partial_on_template / _on_returned_coarse_graph are for chains without multipliers, and strip_correct
+    excludes multipliers (C13's class coarse_multiplier: same root, strip_bonding_descriptors does not understand `|n`). *)
+From CGV Require Import Dialect.CoarseMultiplier.
+Theorem C14_coarse_fragment_multiplier_refuted :
+  DialectCheck.annot_ok doc_coarse cm_annot (S "X;w=2;k=v") = true /\ DialectCheck.coarse_fragment_dialect_class cm_annot = false /\
+  DialectCheck.coarse_fragment_multiplier_class 3 = true /\
+  (exists e, expected exc_fo doc_coarse (a_assign cm_annot) (a_free cm_annot) = Some e /\
+             aget (S "weight") e = Some (VFlt (S "2.0")) /\ aget (S "k") e = Some (VStr (S "v"))) /\
+  (match Reader.ReaderImpl.read_cgsmiles exc_fo (S "{[#X;w=2;k=v]|3}") with
+   | Ok g => map (fun k => (node_get g k (S "weight"), node_get g k (S "k"))) (node_keys g)
+             = [(Some (VFlt (S "2.0")), Some (VStr (S "v"))); (Some (VFlt (S "2.0")), Some (VStr (S "v")));
+                (Some (VFlt (S "2.0")), Some (VStr (S "v")))]
+   | Err _ => False end) /\
+  (match read_coarse_fragment exc_fo (S "A") (S "[$][#X;w=2;k=v]|3[#Y][$]") with
+   | Ok T => map (fun k => (node_get T k (S "atomname"), node_get T k (S "weight"), node_get T k (S "k"))) (node_keys T)
+             = [(Some (VStr (S "X")), Some (VFlt (S "2.0")), Some (VStr (S "v")));
+                (Some (VStr (S "X")), Some (VFlt (S "1.0")), None); (Some (VStr (S "X")), Some (VFlt (S "1.0")), None);
+                (Some (VStr (S "Y")), Some (VFlt (S "1.0")), None)]
+   | Err _ => False end) /\
+  DialectCheck.mult_fail [(S "2", Some (S "2.0"))] [({| a_assign := [(S "fragname", S "A")]; a_free := []; a_ents := [EPos (S "A")] |}, S "A", [])]
+            (S "A") cm_annot (S "X;w=2;k=v") 3
+            [[ [(S "weight", VFlt (S "2.0")); (S "charge", VFlt (S "0.0")); (S "k", VStr (S "v"))];
+               [(S "weight", VFlt (S "1.0")); (S "charge", VFlt (S "0.0"))]; [(S "weight", VFlt (S "1.0")); (S "charge", VFlt (S "0.0"))] ]] = 111%nat.
+Proof. exact coarse_multiplier_refuted. Qed.
+Print Assumptions C14_coarse_fragment_multiplier_refuted.
